@@ -23,8 +23,9 @@ def main():
                        "applied to the dump of the problem (after the announced renames)")
     ck.cov["not_covered"] = ("theorem C08_lp_roundtrip is about the line-level models (IO/LpWrite.v, IO/LpRead.v): tied to the library by whole-file comparison "
                              "(writer, here) and by outcome comparison on rendered / mutated / written files (reader, C10), not proved about the C code; "
-                             "fix_names (name repair) is not modelled - the theorem starts from valid names and the check applies the renames the writer "
-                             "announces; below the line level (fgets chunks of 131069 bytes, .gz/.bz2) explored only")
+                             "fix_names (name repair) is modelled and proved to give valid distinct names (C08_fix_names_ok, compared with the announced renames on every file) "
+                             "but its composition with the round trip is evaluated per instance (wf_lpb on the repaired problem), not one theorem; bytes vs lines: "
+                             "C08_lp_roundtrip_bytes covers files whose lines fit the 131069-byte line buffer, longer lines and .gz/.bz2 explored only")
     ck.assumptions = ["Coq kernel; extraction (ExtrOcamlBasic, ExtrOcamlString); OCaml", "harness h_io.c dumps through the query API (plus lp->objname and intmarker != NULL)", "names interned to N by checks/io_common.py",
                       "write_lp / read_lp_res are models: equality with ILLwrite_lp is checked on every file written in the run, with ILLread_lp in C10"]
     ck.finish(trusted_base=["coqc 8.16.1 kernel", "OCaml extraction", "harness/h_io.c + checks/io_common.py + checks/C08.py"])
